@@ -304,7 +304,8 @@ def r07b(ck, prog):
                 atoms = {"msa->nsip[a]": NA, "msa->nsip[b]": NB, "msa->sequences[a]->len": LA, "msa->plen[a]": LA,
                          "msa->sequences[b]->len": LB, "msa->plen[b]": LB}
                 sc = "a %s of length %d, b %s of length %d" % ("sequence" if NA == 1 else "profile", LA, "sequence" if NB == 1 else "profile", LB)
-                r = Run(prog, D, atoms, also=("init_alnmem",), stop_at=("add_gap_info_to_path_n",))
+                r = Run(prog, D, atoms, also=("init_alnmem",), stop_at=("add_gap_info_to_path_n",),
+                        keep=("mirror_path_n", "set_gap_penalties_n", "make_profile_n", "aln_runner", "aln_runner_serial"))
                 try:
                     tr = r.run()
                 except Undecided as e:
@@ -367,6 +368,49 @@ def r07b(ck, prog):
     ck.floor("R07b", n, 12, "scenarios of do_align")
 
 
+def r07i(ck, prog):
+    """a sequence enters the profile kernels with its full substitution row: the loop of make_profile_n that copies
+    subm[c][j] into the profile column covers every residue code the largest alphabet produces (codes 0..L-1 from the evaluated
+    alphabet tables) - a code outside the copied range scores 0 against everything and alignments that differ only in what that
+    residue pairs with become ties"""
+    from ..affine import loop_range
+    from ..consteval import alphabet_tables
+    F = prog.fn("make_profile_n")
+    try:
+        tabs = alphabet_tables(prog)
+    except Exception as e:
+        raise AnalysisBroken("R07i: alphabets not evaluated (%s)" % e)
+    t = tabs.get("ALPHA_ambigiousPROTEIN")
+    if not t or t.get("to_internal") is None:
+        raise AnalysisBroken("R07i: the protein alphabet was not evaluated")
+    need = max(v for v in t["to_internal"] if isinstance(v, int) and v >= 0) + 1
+    n = 0
+    for a in F.body.find("BinaryOperator"):
+        if a.d["op"] != "=":
+            continue
+        r = a.kids[1].strip(casts=True)
+        l = a.kids[0].strip()
+        if not (r.k == "ArraySubscriptExpr" and r.kids[0].strip(casts=True).k == "ArraySubscriptExpr" and "subm" in r.text() and l.k == "ArraySubscriptExpr"):
+            continue
+        loops = [x for x in a.ancestors() if x.k in ("ForStmt", "WhileStmt")]
+        rg = loop_range(loops[0]) if loops else None
+        if rg is None or r.kids[1].strip(casts=True).text() != rg[0] or l.kids[1].strip(casts=True).text() != rg[0]:
+            raise AnalysisBroken("R07i: the loop of make_profile_n that copies the substitution row is not a recognised counting loop")
+        n += 1
+        lo, hi = rg[1], rg[2]
+        where = site(prog, loops[0], "substitution row")
+        ck.inst("R07i", where, "make_profile_n copies the scores of codes [%s, %s); the protein alphabet produces codes 0..%d" % (lo, hi, need - 1), prog.config)
+        if not (lo.is_const() and hi.is_const()):
+            raise AnalysisBroken("R07i: the range [%s, %s) of the substitution-row copy is not constant" % (lo, hi))
+        if lo.c > 0 or hi.c < need:
+            ck.violation("R07i", "R07i/make_profile_n/row-coverage", where,
+                         "make_profile_n copies the substitution scores of codes [%d, %d) only; the protein alphabet produces codes 0..%d: "
+                         "residue code(s) %s score 0 against every column of a profile, so the profile kernels no longer maximise the "
+                         "sum-of-pairs score for sequences containing them" % (lo.c, hi.c, need - 1,
+                                                                               sorted(set(range(need)) - set(range(lo.c, hi.c)))), prog.config)
+    ck.floor("R07i", n, 1, "substitution-row copies in make_profile_n")
+
+
 def r07c(ck, prog):
     """sum-of-pairs weighting of groups, decided per scenario (kcheck/scenario.py; distinct member counts and lengths make the
     arguments tell the nodes apart): a profile's gap penalties are scaled by the number of sequences in the group it is
@@ -384,7 +428,8 @@ def r07c(ck, prog):
                      "msa->sequences[b]->len": LB, "msa->plen[b]": LB}
             sc = "a %s (%d member(s), length %d), b %s (%d member(s), length %d)" % (
                 "sequence" if NA == 1 else "profile", NA, LA, "sequence" if NB == 1 else "profile", NB, LB)
-            r = Run(prog, D, atoms, also=("init_alnmem",), stop_at=("add_gap_info_to_path_n",))
+            r = Run(prog, D, atoms, also=("init_alnmem",), stop_at=("add_gap_info_to_path_n",),
+                        keep=("mirror_path_n", "set_gap_penalties_n", "make_profile_n", "aln_runner", "aln_runner_serial"))
             try:
                 tr = r.run()
             except Undecided as e:
@@ -1222,12 +1267,14 @@ def run(ck, progs):
     ck.rule("R07f", "the three meetup functions price each transition alike under every border situation, and store the value they compared")
     ck.rule("R07g", "in each kernel the backward pass is the mirror image (left<->right) of the forward pass, piece by piece, in max-plus normal form")
     ck.rule("R07d", "border tests have the right polarity: the branch taken when the border lies inside the sequence uses the interior gap penalties, the other the terminal one")
+    ck.rule("R07i", "make_profile_n copies the substitution scores of every residue code the protein alphabet produces into the profile column")
     ck.rule("R07c", "group weighting: each profile's gap penalties are scaled by the size of the other group, for both sides, on the branch where that side is a profile")
     from . import c02
     for cfg, prog in progs.items():
         ck.attempt(r07a, ck, prog)
         ck.attempt(r07b, ck, prog)
         ck.attempt(r07c, ck, prog)
+        ck.attempt(r07i, ck, prog)
         ck.attempt(r07d, ck, prog)
         ck.attempt(r07e, ck, prog)
         ck.attempt(_r07e_controls, ck)
